@@ -81,6 +81,7 @@ func init() {
 					Props: []string{"C11", "C01", "C03", "C13", "C17"},
 					Mode:  "NB", Quick: 2, Thorough: 3, Shards: 8,
 					Body: func(h *H) {
+						h.Beh[2] = BPanic // a delivery whose worker function panics is acknowledged like any other: once, afterwards
 						w := h.NewWorker(Plain, c)
 						q := w.Bind(qk, nil)
 						q.Ad.Faults, q.Ad.MaxFault = f > 0, 2
